@@ -51,6 +51,85 @@ def extract_inputs(trace, harness):
     return inputs
 
 
+def nondet_sequence(trace):
+    """results of the harness' nondet_* calls, in call order, from a JSON trace"""
+    seq = []
+    for st in trace or []:
+        if st.get("stepType") != "assignment":
+            continue
+        lhs = st.get("lhs", "")
+        if lhs.startswith("return_value_nondet_") and not st.get("hidden") and st.get("assignmentType") != "actual-parameter" \
+                and (st.get("sourceLocation", {}).get("function") or "") != "":
+            v = st.get("value", {})
+            d = v.get("data")
+            if d is None:
+                d = v.get("name")
+            if d in ("TRUE", "true"):
+                d = 1
+            if d in ("FALSE", "false"):
+                d = 0
+            try:
+                seq.append(int(str(d).rstrip("ulUL")))
+            except Exception:
+                seq.append(0)
+    return seq
+
+
+def native_generic(job, trace, o):
+    """compile the SAME harness TU natively (gcc -DVERIF_NATIVE, sanitizers on) against the real headers, feed it the
+    counterexample's inputs and run the real code.  Reproduced = the same harness obligation fails natively, or (for a
+    safety obligation inside /repo code) the real code aborts / a sanitizer fires."""
+    seq = nondet_sequence(trace)
+    wd = os.path.join(vf.WORK, job.name + ".native")
+    os.makedirs(wd, exist_ok=True)
+    main_c = os.path.join(wd, "main.c")
+    with open(main_c, "w") as f:
+        f.write('#include "%s"\n' % os.path.join(vf.CONTRACTS, job.tu))
+        f.write("const long long RP_VALUES[] = { %s };\nconst int RP_N = %d;\n" % (", ".join("%dLL" % v for v in seq) or "0", len(seq)))
+        f.write("int main(void) { %s(); return verif_failed ? 1 : 0; }\n" % job.harness)
+    exe = os.path.join(wd, "replay")
+    cmd = ["gcc", "-O0", "-g", "-w", "-DVERIF_NATIVE=1", "-fsanitize=address,undefined", "-fno-sanitize-recover=undefined",
+           "-I" + vf.CONTRACTS, "-I" + os.path.join(vf.REPO, "src"), "-I" + os.path.join(vf.REPO, "include"),
+           "-I" + os.path.join(vf.REPO, "src", "profiler")] + vf.CPPFLAGS + job.defines + [main_c, "-o", exe,
+           "-L/repo/src/.libs", "-Wl,-rpath,/repo/src/.libs", "-lmyth", "-lpthread"]     # the built library supplies the library's globals
+    p = subprocess.run(cmd, capture_output=True, text=True)
+    if p.returncode != 0:
+        # symbols that only OTHER harnesses of the TU need (contract-only functions, library globals): stub them
+        undef = sorted(set(re.findall(r"undefined reference to `([A-Za-z_][A-Za-z0-9_]*)'", p.stderr)))
+        if not undef:
+            return False, "native build failed (this job cannot be replayed natively):\n" + p.stderr[-1500:]
+        stubs = os.path.join(wd, "stubs.c")
+        with open(stubs, "w") as f:
+            f.write("#include <stdio.h>\n#include <stdlib.h>\n")
+            for u in undef:
+                if u.startswith("g_"):
+                    f.write("char %s[1 << 16];\n" % u)
+                else:
+                    f.write('void %s(void) { printf("REPLAY-NOT-POSSIBLE: contract-only function %s reached\\n"); exit(4); }\n' % (u, u))
+        p = subprocess.run(cmd[:-4] + [stubs] + cmd[-4:], capture_output=True, text=True)
+        if p.returncode != 0:
+            return False, "native build failed (this job cannot be replayed natively):\n" + p.stderr[-1500:]
+    try:
+        q = subprocess.run([exe], capture_output=True, text=True, timeout=60)
+        out = q.stdout + q.stderr + "\n[exit %d]" % q.returncode
+        rc = q.returncode
+    except subprocess.TimeoutExpired:
+        out, rc = "[timeout]", -1
+    if "REPLAY-ASSUMPTION-VIOLATED" in out or "REPLAY-NOT-POSSIBLE" in out or rc in (126, 127, -1):
+        return False, out
+    harness_obl = (o.func == job.harness)
+    if harness_obl:
+        return ("REPLAY-OBLIGATION-FAILED: " + o.desc) in out, out
+    # an obligation inside the code under proof: reproduced only if the real code trips over the SAME thing --
+    # the library's own assert with the same text, or a sanitizer report at the same source line
+    if o.desc.startswith("assertion "):
+        return ("Assertion `%s' failed" % o.desc[len("assertion "):]) in out, out
+    loc = "%s:%s" % (os.path.basename(o.file or "?"), o.line)
+    if ("runtime error" in out or "AddressSanitizer" in out) and loc in out:
+        return True, out
+    return False, out
+
+
 def write_replay_simple(pid, name, detail):
     os.makedirs(REPLAYS, exist_ok=True)
     path = os.path.join(REPLAYS, "%s-%s.json" % (pid, re.sub(r"[^A-Za-z0-9_.-]+", "_", name)[:80]))
@@ -77,6 +156,7 @@ def make_replay(pid, job, o):
         doc["trace_error"] = str(e)
     if trace:
         doc["inputs"] = extract_inputs(trace, job.harness)
+        doc["inputs"]["nondet_call_results_in_order"] = nondet_sequence(trace)
         # a compact rendering of the verifier's counterexample: the last source-level steps
         steps = []
         for st in trace:
@@ -91,6 +171,10 @@ def make_replay(pid, job, o):
                 steps.append("FAILURE %s:%s %s" % (f, sl.get("line"), st.get("reason")))
         doc["verifier_counterexample_tail"] = steps[-80:]
     native = getattr(job, "native", None)
+    if native is None and not os.environ.get("VERIF_NO_NATIVE"):
+        native = True          # try by default; jobs whose callees exist only as contracts end in REPLAY-NOT-POSSIBLE
+    if native is True:
+        native = lambda j, inp, ob: native_generic(j, trace, ob)
     if native and trace:
         try:
             ok, out = native(job, doc["inputs"], o)
